@@ -145,6 +145,9 @@ func classify(c Case) (bool, []string) {
 
 func genCase(t *rapid.T) Case {
 	maxWords := vk.Pick(12, 300)
+	if gen.Chance(t, 1, 30, "long") {
+		maxWords = 1100 // long runs of zero words
+	}
 	var w []uint64
 	var style string
 	switch gen.Uniform(t, 4, "src") {
